@@ -182,8 +182,10 @@ def _dom_own(n):
     if t == Node.ELEMENT_NODE:
         attrs = []
         m = n.attributes
-        for i in range(m.length):
-            a = m.item(i)
+        # the view a user of minidom sees: attributes.keys() / attributes[qualified name] (one entry per qualified
+        # name; NOT the namespace index keysNS(), where un-namespaced 'xml:lang' and 'lang' share a slot)
+        for qn in list(m.keys()):
+            a = m[qn]
             if a.namespaceURI:
                 attrs.append([enc(a.namespaceURI), enc(a.localName), enc(a.value)])
             else:
